@@ -52,11 +52,11 @@ def c08_tier(tier, rnd):
         return {"shape_bounds": (3, 2, 9), "big": (),
                 "mc_consts": {"Caps1": [0, 1], "MaxItems1": 2, "CapsN": [0, 1], "MaxItemsN": 2, "MaxItems3": 1, "ErrItems1": True, "ErrItemsN": False},
                 "mc_extra": 4, "mc_extra_nodes": 6, "mc_timeout": 150, "seq_shapes": 12, "seq_num": 250, "conc": 400, "race": 150,
-                "repro": 20, "mc_sim": None}
+                "repro": 20, "repro_cases": 8, "max_rej": 3, "mc_sim": None}
     return {"shape_bounds": (3, 2, 9), "big": (6,),
             "mc_consts": {"Caps1": [0, 1, 2], "MaxItems1": 3, "CapsN": [0, 1], "MaxItemsN": 2, "MaxItems3": 2, "ErrItems1": True, "ErrItemsN": False},
             "mc_extra": 10 ** 6, "mc_extra_nodes": 7, "mc_timeout": 1500, "seq_shapes": 80, "seq_num": 1500, "conc": 2500, "race": 800,
-            "repro": 40, "mc_sim": "num=3000"}
+            "repro": 40, "repro_cases": 30, "max_rej": 12, "mc_sim": "num=3000"}
 
 
 def trace_signature(lines):
@@ -93,9 +93,9 @@ def selftest08(lines, idx):
     return out
 
 
-def judge(lines, nproc=4):
+def judge(lines, nproc=4, max_rej=12):
     ro = streams.validate_obs(lines, nproc=nproc)
-    rl = streams.validate_lin(lines, nproc=nproc)
+    rl = streams.validate_lin(lines, nproc=nproc, max_rej=max_rej)
     bad = {}
     for cid, _ln, reason in ro["bad"]:
         bad.setdefault(cid, reason)
@@ -155,7 +155,7 @@ def c08(tier, repo=None):
         log("  model: remaining %d trees by simulation: %d states, %.0fs" % (len(rest), simrun.generated, simrun.wall_s))
 
     all_lines = lines + rlines
-    bad, ro, rl = judge(all_lines)
+    bad, ro, rl = judge(all_lines, max_rej=P["max_rej"])
     idx = streams.index_cases(all_lines)
     log("  validated %d traces: StreamsObs %d states, StreamsLin %d states (%d JVM runs); rejected %d" % (
         len(idx), ro["states"], rl["states"], rl["jvm_runs"], len(bad)))
@@ -165,15 +165,15 @@ def c08(tier, repo=None):
     confirmed, unrepro = [], 0
     if bad:
         again = []
-        for cid in list(bad)[:30]:
+        for cid in list(bad)[:P["repro_cases"]]:
             c = case_by_id[cid]
             reps = 1 if c["mode"] == "seq" else P["repro"]
             for k in range(reps):
                 again.append(dict(c, id="%s#%d" % (cid, k), seed=c["seed"] + k))
         lines2, _, _, _ = streams.run_schema(again, repo=repo)
-        bad2, _, _ = judge(lines2)
+        bad2, _, _ = judge(lines2, max_rej=12)
         idx2 = streams.index_cases(lines2)
-        for cid in list(bad)[:30]:
+        for cid in list(bad)[:P["repro_cases"]]:
             hits = [k for k in bad2 if k.split("#")[0] == cid and bad2[k] == bad[cid]]
             if hits:
                 confirmed.append((cid, bad[cid], idx2[hits[0]][1]))
